@@ -252,6 +252,11 @@ impl Ev {
                     ],
                 ])
             }
+            "cello" => {
+                let w = self.fresh();
+                G::Conde(vec![vec![G::Eq(a[0].clone(), T::cons(T::I(1), w.clone()))], vec![G::Eq(a[1].clone(), T::cons(T::I(2), w))]])
+            }
+            "twiceo" => G::Conj(vec![G::Call("cello".into(), a.to_vec()), G::Call("cello".into(), a.to_vec())]),
             other => panic!("unknown user relation {}", other),
         }
     }
